@@ -58,7 +58,7 @@ func GenerateLoginToken(op TokenOptions) (string, error) {
 	if op.Duration == 0 {
 		op.Duration = defaultDuration
 	}
-	now := time.Now().Second()
+	now := int(time.Now().Unix())
 	expiryCaveat := TimePrefix + strconv.Itoa(now+op.Duration)
 	err = mac.AddFirstPartyCaveat([]byte(expiryCaveat))
 	if err != nil {
